@@ -16,6 +16,10 @@ let enc_dep (d : dep) : Stdlib.String.t =
                      enc_opt d.d_dir; enc_opt d.d_distid; field_of_bool d.d_opt; field_of_bool d.d_recurse;
                      enc_strlist ';' d.d_extra]
 let dec_deps (s : Stdlib.String.t) : dep list = List.map dec_dep (split_sep '|' s)
+(* the harness builds every Dependency through the constructor *)
+let construct (fx : bool) (d : dep) : dep =
+  new_dep fx d.d_product d.d_version d.d_flavor d.d_table d.d_dir d.d_distid d.d_opt d.d_recurse d.d_extra
+let dec_cdeps fx s = List.map (construct fx) (dec_deps s)
 let enc_deps (l : dep list) : Stdlib.String.t = String.concat "|" (List.map enc_dep l)
 
 let enc_manifest (m : manifest) : Stdlib.String.t =
@@ -52,7 +56,7 @@ let handle (f : Stdlib.String.t array) : Stdlib.String.t =
   match f.(0) with
   | "mwrite" ->
     (* fx noopt fa efl who time ver prod vers deps *)
-    let m = { mf_product = dec_opt f.(8); mf_version = dec_opt f.(9); mf_deps = dec_deps f.(10) } in
+    let m = { mf_product = dec_opt f.(8); mf_version = dec_opt f.(9); mf_deps = dec_cdeps (bool_of_field f.(1)) f.(10) } in
     "ok\t" ^ enc_str (m_write (bool_of_field f.(1)) (bool_of_field f.(2)) (dec_opt f.(3)) (dec_str f.(4))
                         (dec_str f.(5)) (dec_str f.(6)) (dec_str f.(7)) m)
   | "mread" ->
@@ -74,6 +78,11 @@ let handle (f : Stdlib.String.t array) : Stdlib.String.t =
     (match tl_read (tl_new (dec_str f.(1)) (dec_opt f.(2))) (dec_str f.(3)) with
      | Ok t -> "ok\t" ^ enc_products (tl_products t)
      | Err k -> show_err k)
+  | "tlreread" ->
+    (* tag defflavor text: read, then write again *)
+    (match tl_read (tl_new (dec_str f.(1)) (dec_opt f.(2))) (dec_str f.(3)) with
+     | Ok t -> "ok\t" ^ enc_str (tl_write None t)
+     | Err k -> show_err k)
   | "tlspec" ->
     (* defflavor(str) tag entries: the visible entries in sorted order, flavor set *)
     let t = build_tl (dec_str f.(2)) (Some (dec_str f.(1))) (dec_tlentries f.(3)) in
@@ -86,10 +95,10 @@ let handle (f : Stdlib.String.t array) : Stdlib.String.t =
      | Err k -> show_err k)
   | "remap" ->
     (* fx rows flavor deps *)
-    "ok\t" ^ enc_deps (remap (bool_of_field f.(1)) (m_of_rows (dec_rows f.(2))) (dec_str f.(3)) (dec_deps f.(4)))
+    "ok\t" ^ enc_deps (remap (bool_of_field f.(1)) (m_of_rows (dec_rows f.(2))) (dec_str f.(3)) (dec_cdeps (bool_of_field f.(1)) f.(4)))
   | "remapspec" ->
     (* rows flavor deps -> what the rows say, and the per-entry side condition *)
-    let rows = dec_rows f.(1) and fl = dec_str f.(2) and ds = dec_deps f.(3) in
+    let rows = dec_rows f.(1) and fl = dec_str f.(2) and ds = dec_cdeps true f.(3) in
     "ok\t" ^ enc_deps (spec_remap rows fl ds) ^ "\t" ^
     String.concat "," (List.map (fun d -> field_of_bool (entry_ok rows fl d.d_product d.d_version)) ds)
   | "undo" ->
